@@ -184,6 +184,11 @@ class PropertyRun:
         if symbolic:
             mods = [importlib.import_module(m) if isinstance(m, str) else m for m in unit.modules]
             st.enter_context(patched(mods, unit.extra_patches))
+            if unit.extra_patches:
+                names = {m.__name__ for m in mods}
+                rest = [importlib.import_module(m) for m in unit.extra_patches if m not in names]
+                if rest:
+                    st.enter_context(patched_extra_only(rest, unit.extra_patches))
             if unit.object_lp:
                 st.enter_context(object_livepoints())
         elif unit.extra_patches:
